@@ -17,14 +17,23 @@
 (*    servedRootCanonical   the same over the entries that name immutable  *)
 (*                files (<number:05>.<chunk|primary|secondary>) only       *)
 (*    digestsAccepted   download_and_verify_digests returned Ok            *)
-(*    dir         the restored directory: <<[name, num, did]>> for every   *)
-(*                file <db>/immutable/<number>.<chunk|primary|secondary>,  *)
-(*                did recomputed from the real bytes                       *)
+(*    dir         the restored directory: <<[name, num, did, kind]>> for   *)
+(*                every file <db>/immutable/<number>.<chunk|primary|       *)
+(*                secondary> as a reader gets it: a regular file (kind     *)
+(*                "reg") or a regular file reached through a symbolic link *)
+(*                (kind "link"); did recomputed from the real bytes read   *)
+(*                through that name.  (Whether a link may stand for the    *)
+(*                file is not decided by the property; reading it this way *)
+(*                never asks more than the other way.)  What is no file    *)
+(*                under such a name -- a directory, a dangling link -- is  *)
+(*                not in `dir` (the name is absent) and is listed in the   *)
+(*                descriptive field `nonfiles`                             *)
 (*    rangeValid lo hi   the requested range (resolved against the beacon) *)
 (*    allowMissing       the caller explicitly allowed gaps                *)
 (*    accepted    the whole flow succeeded                                 *)
 (*    (+ descriptive: case label stage err missing tampered nonVerifiable  *)
-(*       worst decoy rangeKind N servedNames pred pred_match)              *)
+(*       worst decoy rangeKind N servedNames nonfiles entryKinds pred      *)
+(*       pred_match)                                                       *)
 (*                                                                         *)
 (* The property, one-directional, and nothing else:                        *)
 (*   digest list accepted => it reproduces the signed root (over all its   *)
